@@ -11,18 +11,37 @@ import xarray as xr
 from sv import core
 
 PROPERTY = "C14"
-GEN = []
+GEN = ["Roc"]
 PROPS = ["ScoresVerif/Props/C14.lean"]
 DRIVER_DEPS = ["ScoresVerif.Driver.C14"]
 AUDIT_FILES = ["ScoresVerif/Lemmas/Roc.lean", "ScoresVerif/Model/Roc.lean", "ScoresVerif/Spec/Roc.lean"]
 LEVEL = "proof"
-TRUSTED = ["hand-written model Model/Roc.lean of roc_curve_data -> binary_discretise(>=) -> POD/POFD -> -trapezoid "
+TRUSTED = ["hand-written model Model/Roc.lean of roc_curve_data -> binary_discretise(>=) -> POD/POFD -> -trapezoid; the POD/POFD maps, quotients, weighting/summation frame and the roc call site are regenerated from the source (tools/gen/Roc.py) and proved equal to the model, the rest is "
            "(tied by differential correspondence only, no translator)",
            "the harness groups the cells of the reduced dimensions per preserved index (dimension handling is C01)"]
 ASSUMPTIONS = ["forecasts / thresholds are dyadic in [0, 1.25], weights small dyadic: sums and comparisons are exact in "
                "float64; quotients compared to 1e-9",
                "no dask input (F14 belongs to C04); fcst / obs / weights share coordinate labels in the same order",
                "float rounding is not modelled"]
+MANIFEST = dict(
+    level="proof",
+    text="Kernel-checked Lean theorems about a model of roc_curve_data (binary_discretise with >=, POD/POFD maps with NaN masks "
+         "and weights, -trapezoid), for any number of pairs and thresholds over the rationals: each ROC point equals "
+         "(POFD, POD) of 'forecast >= t' by weighted counting over the valid pairs (a forecast equal to t is an event; pairs "
+         "with a NaN forecast, observation or weight are not counted; 0/0 is NaN), both coordinates are non-increasing in t and "
+         "in [0,1] for non-negative weights and equal 1 at a threshold not above any forecast, AUC equals the trapezoid sum "
+         "and lies in [0,1] for thresholds accepted by the guard. The model is tied to the code by a differential "
+         "correspondence (ties with thresholds, NaN, weights, reductions / preserved dims, argument checks); the same "
+         "statements and the Mann-Whitney equality (thresholds containing 0, every forecast value and a larger value; weighted "
+         "form with weights) are evaluated on the implementation against the Lean counting spec in exact rationals, "
+         "exhaustively for all forecast/observation vectors up to length 3 (quick) / 5 (thorough) over a 4-value pool.",
+    note="Trusted: Lean kernel; propext/Classical.choice/Quot.sound; the hand-written model (no translator) tied only by "
+         "correspondence on dyadic inputs with tolerance 1e-9; SV.Fl (IEEE minus rounding, overflow, signed zero); the "
+         "harness groups the cells that are summed per preserved index (gather_dimensions is C01). Not proved, only compared: "
+         "the Mann-Whitney equality (stretch statement kept as a comment), the argument-check model (`raises`). "
+         "Not modelled: dask input (F14, C04), differently ordered coordinates, non-binary observations with check_args=False.",
+    technique="Lean 4 theorems over a hand model + differential correspondence + exact counting / Mann-Whitney oracle",
+    design="6/C14")
 RULE = ("one case = (forecast array from a 5-value pool so most values coincide with a threshold, binary obs with NaN, "
         "threshold list, weights, reduction, check_args); distinct = distinct canonical call; non-trivial = some non-NaN "
         "POD or POFD and not malformed")
@@ -262,10 +281,38 @@ def weights_nonneg(tr):
 
 
 class Checker:
+    MAX_FAIL_PER_CALL = 3
+
     def __init__(self, ctx):
         self.ctx = ctx
+        self.nfail = 0
+        self.per_sig = {}
+        self.minimising = False
 
     def fail(self, batch, call, sig, observed, expected, theorem=None, extra=None):
+        self.nfail += 1
+        tr = (extra or {}).get("triples_for_min")
+        if extra:
+            extra = {k: v for k, v in extra.items() if k != "triples_for_min"}
+        self.per_sig[sig] = self.per_sig.get(sig, 0) + 1
+        if tr is not None and not self.minimising and self.per_sig[sig] <= 2:
+            # report the single ROC curve that fails as a self-contained 1-D call (when it fails on its own)
+            small = {"dims": ["k"], "shape": [len(tr)], "fcst": [p[0] for p in tr], "obs_dims": ["k"], "obs": [p[1] for p in tr],
+                     "thresholds": list(call["thresholds"]), "check_args": bool(call.get("check_args", True))}
+            if tr and tr[0][2] is not None:
+                small["weights_dims"] = ["k"]
+                small["weights"] = [p[2] for p in tr]
+            sub = Checker(core.Ctx("C14", "quick", 0))
+            sub.minimising = True
+            try:
+                sub.run([small])
+            except Exception:  # noqa: BLE001
+                sub.ctx.failures = []
+            if sub.ctx.failures:
+                call = small
+                extra = dict(extra or {}, minimised_from_shape=None)
+        if len(call.get("fcst", [])) > 400:
+            call = dict(call, fcst="<%d values omitted>" % len(call["fcst"]), obs="<omitted>", not_replayable=True)
         case = {"check": batch, "call": describe(call)}
         if extra:
             case.update(extra)
@@ -282,13 +329,18 @@ class Checker:
                                                        "thresholds": [core.fl_str(t) for t in c["thresholds"]]}})
         res = core.run_driver("C14", ops)
         for c, (s, gs) in zip(calls, idx):
+            if self.nfail >= 40:
+                return      # the search has its failing inputs
             r = run_impl(c)
             self.ctx.case("roc-point-eq-pod-pofd", describe(c), nontrivial=nontrivial(r))
             if "err" in r:
                 self.fail("roc-point-eq-pod-pofd", c, "exception", r, "a value")
                 continue
             ts = c["thresholds"]
+            start = self.nfail
             for gi, (key, tr) in enumerate(gs):
+                if self.nfail - start >= self.MAX_FAIL_PER_CALL:
+                    break
                 sp = res[s + gi]
                 pod, pofd, auc = r["pod"][gi], r["pofd"][gi], r["auc"][gi]
                 # 1. each point is POD / POFD of `forecast >= t` by direct counting over the valid pairs
@@ -296,7 +348,7 @@ class Checker:
                     bad = [k for k in range(len(ts)) if not core.close(got[k], want[k])]
                     if bad:
                         self.fail("roc-point-eq-pod-pofd", c, "point:" + name, got, want, "roc_point_eq_pod_pofd",
-                                  {"group": list(key), "threshold": ts[bad[0]], "triples": tr})
+                                  {"group": list(key), "threshold": ts[bad[0]], "triples_for_min": tr})
                         break
                 # 2. non-increasing in t (non-negative weights); 1 at t = 0 (else NaN as 0/0)
                 if weights_nonneg(tr):
@@ -304,16 +356,16 @@ class Checker:
                         fin = [x for x in v if not math.isnan(x)]
                         if len(fin) != len(v) and fin:
                             self.fail("monotone-and-one-at-zero", c, "partly-nan:" + name, v, "all NaN or no NaN", None,
-                                      {"group": list(key)})
+                                      {"group": list(key), "triples_for_min": tr})
                         elif any(fin[k + 1] > fin[k] + 1e-12 for k in range(len(fin) - 1)):
                             self.fail("monotone-and-one-at-zero", c, "increasing:" + name, v, "non-increasing in threshold",
-                                      "pod_antitone / pofd_antitone", {"group": list(key)})
+                                      "pod_antitone / pofd_antitone", {"group": list(key), "triples_for_min": tr})
                         elif fin and ts[0] == 0.0 and abs(fin[0] - 1.0) > 1e-12:
                             self.fail("monotone-and-one-at-zero", c, "not-one-at-zero:" + name, v, "1 at threshold 0",
-                                      "pod_zero_eq_one / pofd_zero_eq_one", {"group": list(key)})
+                                      "pod_zero_eq_one / pofd_zero_eq_one", {"group": list(key), "triples_for_min": tr})
                         elif fin and (min(fin) < -1e-12 or max(fin) > 1 + 1e-12):
                             self.fail("monotone-and-one-at-zero", c, "outside-unit-interval:" + name, v, "in [0,1]", None,
-                                      {"group": list(key)})
+                                      {"group": list(key), "triples_for_min": tr})
                     self.ctx.batches.setdefault("monotone-and-one-at-zero", {"cases": 0, "failed": 0})["cases"] += 1
                 # 3. AUC is the trapezoid area under the returned points, and lies in [0, 1]
                 b = self.ctx.batches.setdefault("auc-eq-trapezoid", {"cases": 0, "failed": 0})
@@ -324,10 +376,10 @@ class Checker:
                     trap = sum((pofd[k] - pofd[k + 1]) * (pod[k] + pod[k + 1]) / 2 for k in range(len(ts) - 1))
                 if not core.close_ff(auc, trap) or not core.close(auc, sp["auc"]):
                     self.fail("auc-eq-trapezoid", c, "auc", auc, {"trapezoid of returned points": trap, "spec": sp["auc"]},
-                              "auc_eq_trapezoid", {"group": list(key)})
+                              "auc_eq_trapezoid", {"group": list(key), "triples_for_min": tr})
                 elif weights_nonneg(tr) and not math.isnan(auc) and (auc < -1e-12 or auc > 1 + 1e-12):
                     self.fail("auc-eq-trapezoid", c, "auc-outside-unit-interval", auc, "in [0,1]", "trapArea_mem_unit",
-                              {"group": list(key)})
+                              {"group": list(key), "triples_for_min": tr})
                 # 4. Mann-Whitney when the thresholds contain 0, every forecast value and something above the largest
                 valid = [p for p in tr if not (math.isnan(p[0]) or math.isnan(p[1]) or (p[2] is not None and math.isnan(p[2])))]
                 if valid and is_complete(valid, ts) and weights_nonneg(tr):
@@ -336,7 +388,7 @@ class Checker:
                     self.ctx.tag("mann-whitney-applicable")
                     if not core.close(auc, sp["mw"]):
                         self.fail("auc-eq-mann-whitney", c, "auc-vs-mann-whitney", auc, sp["mw"], "auc_eq_mannWhitney_stmt",
-                                  {"group": list(key), "triples": tr})
+                                  {"group": list(key), "triples_for_min": tr})
 
 
 def exhaustive_calls(nmax):
